@@ -1,5 +1,6 @@
 import Bpmn.Props.C05
 import Bpmn.Props.EngineCurrent
+import Bpmn.Props.C05Tracker
 open Bpmn.Props.C05 Bpmn.Props.EngineCurrent
 #print axioms C05_partial
 #print axioms igDecide_true
@@ -10,3 +11,10 @@ open Bpmn.Props.C05 Bpmn.Props.EngineCurrent
 #print axioms ij_window
 #print axioms C05_counterexample_nested_fork
 #print axioms current_facts_known
+#print axioms join_waits
+#print axioms join_fires_once
+#print axioms cohort_after_fork
+#print axioms fresh_view_join_correct
+#print axioms fresh_view_no_early_release
+#print axioms first_activation_view
+#print axioms C05_counterexample_stale_view
